@@ -195,6 +195,72 @@ def run(ctx):
             fe32(data, out, CRC32.check(buf, out), any(CRC32.check(buf, x) for x in wrongs(out, 32)))
             if bytes(buf) != data:
                 fe32(data, (out + 1) & 0xFFFFFFFF, False, True)      # recorded as a wrong checksum: the buffer was altered
+    # ---- front-end inputs aimed by the code's algebra (a front end is affine in its message): messages whose check value is all
+    # zeros, all ones, or has a zero / all-one octet at either end - one in 2^16 (2^32) messages has such a value, a verifier that
+    # treats them as "no value" / "out of range" meets them only here.  The last bits of a random message are solved for (Gaussian
+    # elimination over GF(2) on 17 / 33 calls); the library is only asked, TLC judges what it answered like every other case.
+    def solve(cols, target):
+        """indices of columns whose xor is target, or None"""
+        basis = []          # (vector, subset mask)
+        for i, c in enumerate(cols):
+            v, m_ = c, 1 << i
+            for bv, bm in basis:
+                if v ^ bv < v:
+                    v, m_ = v ^ bv, m_ ^ bm
+            if v:
+                basis.append((v, m_))
+                basis.sort(reverse=True)
+        v, m_ = target, 0
+        for bv, bm in basis:
+            if v ^ bv < v:
+                v, m_ = v ^ bv, m_ ^ bm
+        return None if v else m_
+
+    def aim(f, nsuffix, target):
+        """suffix (nsuffix bits, as int) for which f(suffix) == target, f affine"""
+        base = f(0)
+        cols = [f(1 << i) ^ base for i in range(nsuffix)]
+        m_ = solve(cols, target ^ base)
+        return None if m_ is None or f(m_) != target else m_
+
+    naimed = 0
+    for rep in range(2 if ctx.quick else 12):
+        for m in masks:
+            for T in (0x0000, 0xFFFF, 0x00FF, 0xFF00, 0x0001, 0xFFFE, 0x8000, 0x7FFF):
+                pre = fill(rng.choice([8, 8, 10, rng.randrange(0, 30)]))
+                sfx = aim(lambda x: CRC16.calculate(pre + x.to_bytes(2, "big"), m), 16, T)
+                if sfx is None:
+                    continue
+                data = pre + sfx.to_bytes(2, "big")
+                out = CRC16.calculate(data, m)
+                fe16(data, m.value, out, CRC16.check(data, out, m), any(CRC16.check(data, x, m) for x in wrongs(out, 16, extra=[m.value])))
+                naimed += 1
+        for T in (0, 0xFFFFFFFF, 0x000000FF, 0xFF000000, 0x00FFFFFF, 0xFFFFFF00, 1, 0x80000000):
+            pre = fill(rng.choice([16, 8, rng.randrange(0, 50)]))
+            sfx = aim(lambda x: CRC32.calculate(pre + x.to_bytes(4, "big")), 32, T)
+            if sfx is None:
+                continue
+            data = pre + sfx.to_bytes(4, "big")
+            out = CRC32.calculate(data)
+            fe32(data, out, CRC32.check(data, out), any(CRC32.check(data, x) for x in wrongs(out, 32)))
+            naimed += 1
+        for T in (0, 0xFF, 0x0F, 0xF0, 1, 0x80):
+            pre = bitarray([rng.getrandbits(1) for _ in range(20)])
+            sfx = aim(lambda x: CRC8.calculate(pre + int2ba(x, length=8)), 8, T)
+            if sfx is not None:
+                bits = pre + int2ba(sfx, length=8)
+                fe8(bits, CRC8.calculate(bits.copy()))
+                naimed += 1
+        for T in (0, 0x1FF, 0x0FF, 0x100, 1):
+            n_ = rng.choice([10, 16, 22])
+            pre, dbsn = fill(n_ - 2), rng.randrange(128)
+            m9 = rng.choice([CrcMasks.Rate12DataContinuation, CrcMasks.Rate34DataContinuation, CrcMasks.Rate1DataContinuation])
+            sfx = aim(lambda x: CRC9.calculate_from_parts(pre + x.to_bytes(2, "big"), dbsn, m9), 16, T)
+            if sfx is not None:
+                data = pre + sfx.to_bytes(2, "big")
+                fe9(data, dbsn, m9.value, None, CRC9.calculate_from_parts(data, dbsn, m9))
+                naimed += 1
+    ctx.note("front_end_inputs_aimed_at_extreme_check_values", naimed)
     for f in fe:
         ctx.count(core.digest(f))
     data = {"obs": obs, "fe": fe}
